@@ -34,6 +34,15 @@ CHECKS = [
              '(needs Jordan curve) and is decided by the differential run against an exact-rational crossing oracle.',
      'note': 'Trusted: Lean kernel/Mathlib/3 std axioms; hand model Shapes.lean/Region.lean tied to the code by the correspondence run '
              '(exact rationals, boundary band 1e-9 excepted as C01 allows); np.cos/np.sin/np.hypot correct to a few ulp; the compiled pnpoly .so is what runs.'},
+    {'property_id': 'C04',
+     'technique': 'Lean 4 theorems (Cauchy-Schwarz via nlinarith, corner case analysis, fold invariants, exact floor-of-sqrt with proof against Real.sqrt); correspondence run',
+     'text': 'For every shape the float rectangle handed to from_float is proved to enclose every member point and to be tight (circle: every line strictly inside meets the disk; '
+             'rectangle: each side attained by a corner that is a limit of members; ellipse over R: each side attained by a member; polygon: exact vertex range, members confined by the parity argument; '
+             'line/point: endpoints); from_float gives the smallest box covering it and each border column/row is reached (C19); the executable ellipse box is proved equal to from_float of the real sqrt extent; '
+             'for region expressions of ANY depth the box encloses every component shape (induction), annulus box = outer box, compound box = union. '
+             'mask.bbox == region.bounding_box and no weight outside are checked on the real code (kernels are C02/C03).',
+     'note': 'Trusted: Lean kernel/Mathlib/3 std axioms; hand model Extent.lean tied by the correspondence run (exact box equality; a side whose extent is within 1e-9 of a pixel edge is excepted '
+             'only when the float arithmetic is inexact); np.sqrt/cos/sin to a few ulp.'},
 ]
 
 _PENDING = 'check not built yet in this session (see DESIGN.md build order); not a statement that the technique cannot apply'
